@@ -286,7 +286,9 @@ fn run_lu<T: BE>(case: &Value, out: &mut Out) {
     let det = guarded(|| m.det());
     let sol = guarded(|| m.solve(&b));
     if exact {
-        let pre = jband(&m, Part::Re);
+        // the operand of these two events is the matrix the CASE prescribes (generators keep its determinant and
+        // solution inside TLC's integers); that the object under test holds exactly these in-band entries is the "built" event
+        let pre = json!({"n": case["band"]["n"], "m1": case["band"]["m1"], "m2": case["band"]["m2"], "c": case["band"]["c"]});
         let rq = match &det { Ok(d) => rat_of(d), Err(_) => json!([BAD, 1]) };
         emit(out, &mut k, json!({"op": "det", "pre": pre, "panic": det.is_err(), "rq": rq}));
         let (xs, l) = match &sol { Ok(x) => jxs(common_den(&x.vec.iter().map(rat_val).collect::<Vec<Rat>>(), LIM), n), Err(_) => jxs(None, n) };
